@@ -696,4 +696,31 @@ theorem fullWrites_exact (d n : DP) :
     rw [p4.2 k, p3.1, p2.2 k]
     cases hn : n.B.get k <;> simp
 
+theorem writeBackends_get_lt (B : AMap BKey BVal) (id start : Nat) (l : List Ep) (k : BKey)
+    (h : k.id ≠ id ∨ k.idx < start) : (writeBackends B id start l).get k = B.get k := by
+  induction l generalizing B start with
+  | nil => rfl
+  | cons e l ih =>
+    simp only [writeBackends]
+    rw [ih _ _ (by rcases h with h | h; exact Or.inl h; exact Or.inr (by omega))]
+    apply AMap.get_set_ne
+    intro e'; subst e'; rcases h with h | h
+    · exact h rfl
+    · simp at h
+
+theorem writeBackends_get (B : AMap BKey BVal) (id start : Nat) (l : List Ep) (i : Nat) (hi : i < l.length) :
+    (writeBackends B id start l).get ⟨id, start + i⟩ = some ⟨l[i].ip, l[i].port⟩ := by
+  induction l generalizing B start i with
+  | nil => simp at hi
+  | cons e l ih =>
+    simp only [writeBackends]
+    cases i with
+    | zero =>
+      rw [writeBackends_get_lt _ _ _ _ _ (Or.inr (by simp))]
+      simp [AMap.get_set_self]
+    | succ j =>
+      have := ih (B.set ⟨id, start⟩ ⟨e.ip, e.port⟩) (start + 1) j (by simpa using hi)
+      have e2 : start + (j + 1) = start + 1 + j := by omega
+      rw [e2, this]; simp
+
 end CalicoVerif.C42
